@@ -82,7 +82,7 @@ def pointee_of(s):
 
 def parse_type_str(s):
     s0 = strip_quals(s)
-    if s0.endswith("*"):
+    if s0.endswith("*") or "(*)" in s0:
         return CT("p", 64, s0)
     if s0.endswith("]"):
         return CT("a", 0, s0)
@@ -472,6 +472,7 @@ class FnTranslator:
         self.st = St()
         self.always = set()
         self.free_params = []
+        self.frag_plain = False
 
     # ---- names ---------------------------------------------------------------------------------------------
     def fresh(self, base):
@@ -495,6 +496,14 @@ class FnTranslator:
         """fragment mode: a variable declared outside the fragment is an input of the fragment"""
         ts = rd.get("type", {}).get("qualType", "")
         ct = parse_type_str(rd.get("type", {}).get("desugaredQualType", ts)) or parse_type_str(ts)
+        if ct is None and not strip_quals(ts).endswith("]"):
+            # a struct object declared outside the fragment: its members are inputs / outputs like those of a pointer parameter
+            key = "frag:" + rd["name"]
+            base = PtrBase(rd["name"], key, strip_quals(ts))
+            self.bases[key] = base
+            v = {"kind": "struct", "base": base}
+            self.vars[rd["id"]] = v
+            return v
         if ct is None:
             raise Unsupported("free variable `%s` of type `%s`" % (rd.get("name"), ts))
         if ct.kind == "p":
@@ -536,6 +545,14 @@ class FnTranslator:
                 v = self.free_var(rd)
             if v is None:
                 if rd.get("kind") == "VarDecl":
+                    ts = rd.get("type", {}).get("qualType", "")
+                    ct = parse_type_str(rd.get("type", {}).get("desugaredQualType", ts)) or parse_type_str(ts)
+                    if ct is not None and ct.isint() and not re.search(r"\bconst\b", ts):
+                        # a file-scope variable: read = input `glob_<name>`, written = result component
+                        base = self.bases.get("glob")
+                        if base is None:
+                            base = self.bases["glob"] = PtrBase("glob", "glob", "")
+                        return ("field", base, rd["name"], ct)
                     return ("global", rd, None)
                 raise Unsupported("reference to `%s` (%s)" % (rd.get("name"), rd.get("kind")))
             return ("var", v)
@@ -543,20 +560,27 @@ class FnTranslator:
             if n.get("isArrow"):
                 return ("field", self.ptr_base(inner(n)[0]), n["name"], node_type_lenient(n))
             lv = self.lvalue(inner(n)[0])
+            if lv[0] == "var" and lv[1]["kind"] == "struct":
+                return ("field", lv[1]["base"], n["name"], node_type_lenient(n))
             if lv[0] != "field":
                 raise Unsupported("member access on a non-parameter object")
             return ("field", lv[1], lv[2] + "." + n["name"], node_type_lenient(n))
         if k == "ArraySubscriptExpr":
             b, i = inner(n)
             bs = strip_casts(b)
-            idx = self.val(i)
+            is_table = False
             if bs.get("kind") == "DeclRefExpr":
                 rd = bs["referencedDecl"]
                 v = self.vars.get(rd["id"])
-                if v is not None and v["kind"] == "table":
-                    return ("table", v, idx)
-                if v is None and rd.get("kind") == "VarDecl":
-                    return ("table", self.global_table(rd), idx)
+                is_table = (v is not None and v["kind"] == "table") or (v is None and rd.get("kind") == "VarDecl" and strip_quals(rd.get("type", {}).get("qualType", "")).endswith("]"))
+            if not is_table and self.spec.get("fragment") and strip_casts(i).get("kind") != "IntegerLiteral":
+                sym = self.symbolic_index(i)
+                if sym is not None:
+                    return ("field", self.ptr_base(b), "[%s]" % sym, node_type(n))
+            idx = self.val(i)
+            if is_table:
+                v = self.vars.get(bs["referencedDecl"]["id"])
+                return ("table", v if v is not None else self.global_table(bs["referencedDecl"]), idx)
             base = self.ptr_base(b)
             if idx.const is None or idx.const < 0:
                 raise Unsupported("array parameter indexed by a non-constant")
@@ -564,6 +588,19 @@ class FnTranslator:
         if k == "UnaryOperator" and n.get("opcode") == "*":
             return ("field", self.ptr_base(inner(n)[0]), "[0]", node_type(n))
         raise Unsupported("lvalue of kind %s" % k)
+
+    def symbolic_index(self, n):
+        """fragment mode: `v` or `v + c` (v a variable declared outside the fragment) as the name of an array cell"""
+        n = strip_casts(n)
+        if n.get("kind") == "DeclRefExpr" and n["referencedDecl"].get("kind") in ("VarDecl", "ParmVarDecl"):
+            return n["referencedDecl"]["name"]
+        if n.get("kind") == "BinaryOperator" and n.get("opcode") == "+":
+            a, b = [strip_casts(x) for x in inner(n)]
+            if a.get("kind") == "IntegerLiteral":
+                a, b = b, a
+            if a.get("kind") == "DeclRefExpr" and b.get("kind") == "IntegerLiteral":
+                return "%s+%s" % (a["referencedDecl"]["name"], b["value"])
+        return None
 
     def global_table(self, rd):
         ts = rd.get("type", {}).get("qualType", "")
@@ -663,7 +700,7 @@ class FnTranslator:
                 ty = node_type(n)
                 if c in ("True", "False"):
                     return lit(1 if c == "True" else 0, ty)
-                return V("(if %s then (1 : %s) else 0)" % (c, ty.lean()), ty)
+                return ite_v(c, lit(1, ty), lit(0, ty), ty)
             if op in ("+", "-", "*", "/", "%", "<<", ">>", "&", "|", "^"):
                 r = arith(op, self.val(a), self.val(b), node_type(n))
                 if r.const is not None and r.const > 16:
@@ -678,7 +715,7 @@ class FnTranslator:
                 c = self.cond(n)
                 if c in ("True", "False"):
                     return lit(1 if c == "True" else 0, ty)
-                return V("(if %s then (1 : %s) else 0)" % (c, ty.lean()), ty)
+                return ite_v(c, lit(1, ty), lit(0, ty), ty)
             x = self.val(sub)
             if op == "+":
                 return x
@@ -711,6 +748,8 @@ class FnTranslator:
     def cond(self, n):
         """Lean Prop text ('True'/'False' when constant) for the truth value of a C expression."""
         k = n.get("kind")
+        if k == "SynthCond":
+            return n["text"]
         if k in ("ParenExpr", "ConstantExpr"):
             return self.cond(inner(n)[0])
         if k in ("ImplicitCastExpr", "CStyleCastExpr"):
@@ -852,7 +891,9 @@ class FnTranslator:
                 raise Unsupported("return with a value in a void function")
             self.st = st
             v = self.val(sub[0])
-            if self.spec.get("fragment"):
+            if self.frag_plain:
+                self.k.ret = v.ty
+            elif self.spec.get("fragment"):
                 v = arith("+", convert(v, CT("u", 32)), lit(1, CT("u", 32)), CT("u", 32))
             elif v.ty != self.k.ret:
                 v = convert(v, self.k.ret)
@@ -860,6 +901,7 @@ class FnTranslator:
         elif self.k.ret is not None:
             raise Unsupported("return without a value")
         parts += self.out_values(st)
+        parts += [x[0] for x in self.frag_results(st)]
         if not parts:
             raise Unsupported("void function without outputs")
         return [parts[0] if len(parts) == 1 else "(" + ", ".join(parts) + ")"]
@@ -908,6 +950,15 @@ class FnTranslator:
             if sub.get("kind") in ("IntegerLiteral", "DeclRefExpr"):
                 return []
             raise Unsupported("(void) of a non-trivial expression")
+        if k == "CallExpr":
+            callee = strip_casts(inner(s)[0])
+            nm = callee.get("referencedDecl", {}).get("name") if callee.get("kind") == "DeclRefExpr" else None
+            if nm in self.spec.get("ignore_calls", ()):
+                note = "call to `%s` not rendered" % nm
+                if note not in self.k.notes:
+                    self.k.notes.append(note)
+                return []
+            raise Unsupported("call to `%s` as a statement" % nm)
         if k == "BinaryOperator" and s.get("opcode") == "=":
             l, r = inner(s)
             lt = parse_type_str((l.get("type") or {}).get("qualType", ""))
@@ -1001,7 +1052,7 @@ class FnTranslator:
             if not ct.isint():
                 raise Unsupported("local `%s` of type `%s`" % (d["name"], d["type"]["qualType"]))
             nm = self.fresh(d["name"])
-            self.vars[d["id"]] = {"kind": "int", "lean": nm, "ct": ct}
+            self.vars[d["id"]] = {"kind": "int", "lean": nm, "ct": ct, "cname": d["name"]}
             self.log.append(("d", nm, ct))
             if init:
                 self.st = st
@@ -1035,24 +1086,185 @@ class FnTranslator:
                 th = self.stmts_of(parts[1])
                 el = self.stmts_of(parts[2]) if len(parts) > 2 else []
                 self.st = st
-                cc = self.cond(c)
+                mark0 = len(self.log)
+                try:
+                    cc = self.cond(c)
+                except Unsupported:
+                    # a condition outside the subset is tolerated only if it guards nothing that is rendered
+                    # (e.g. `if (mf->buffer != NULL && …) { lzma_free(…); mf->buffer = NULL; }`)
+                    if self.may_return(s) or not self.effect_free(th + el, st):
+                        raise
+                    i += 1
+                    continue
                 if cc in ("True", "False"):
                     stmts[i:i + 1] = th if cc == "True" else el
                     continue
                 if self.may_return(s):
+                    paths = self.early_returns([s], st)
+                    if paths:
+                        # every path through the statement either returns or changes nothing: no need to copy the rest
+                        rest = stmts[i + 1:]
+                        out = []
+                        ind = ""
+                        for pc, r in paths:
+                            out.append(ind + "if %s then" % pc)
+                            out += [ind + "  " + x for x in self.ret_lines(r, st)]
+                            out.append(ind + "else")
+                            ind += "  "
+                        out += [ind + x for x in self.block(rest, st, tail)]
+                        return lines + out
                     rest = stmts[i + 1:]
                     a = self.block(th, st.fork(), lambda st2: self.block(rest, st2, tail))
                     b = self.block(el, st.fork(), lambda st2: self.block(rest, st2, tail))
                     return lines + ["if %s then" % cc] + ["  " + x for x in a] + ["else"] + ["  " + x for x in b]
-                lines += self.if_join(cc, th, el, st)
+                lines += self.if_join(cc, th, el, st, mark0)
             elif k in ("DoStmt", "WhileStmt", "ForStmt"):
                 lines += self.loop(s, st)
-            elif k in ("SwitchStmt", "GotoStmt", "LabelStmt", "BreakStmt", "ContinueStmt", "CaseStmt"):
+            elif k == "SwitchStmt":
+                pre, node = self.switch_to_ifs(s, st)
+                lines += pre
+                if node is None:
+                    i += 1
+                    continue
+                stmts[i:i + 1] = [node]
+                continue
+            elif k in ("GotoStmt", "LabelStmt", "BreakStmt", "ContinueStmt", "CaseStmt", "DefaultStmt"):
                 raise Unsupported("statement of kind %s" % k)
             else:
                 lines += self.expr_stmt(s, st)
             i += 1
         return lines + tail(st)
+
+    @staticmethod
+    def always_returns(stmts):
+        return bool(stmts) and stmts[-1].get("kind") == "ReturnStmt"
+
+    def early_returns(self, stmts, st):
+        """[(condition, ReturnStmt)] if every path through `stmts` either returns or has no rendered effect, else None"""
+        paths = []
+        for s in stmts:
+            k = s.get("kind")
+            if k == "CompoundStmt":
+                sub = self.early_returns(inner(s), st)
+                if sub is None:
+                    return None
+                paths += sub
+            elif k == "ReturnStmt":
+                paths.append(("True", s))
+                return paths
+            elif k == "IfStmt":
+                parts = inner(s)
+                self.st = st
+                try:
+                    cc = self.cond(parts[0])
+                except Unsupported:
+                    return None
+                pa = self.early_returns(self.stmts_of(parts[1]), st)
+                pb = self.early_returns(self.stmts_of(parts[2]) if len(parts) > 2 else [], st)
+                if pa is None or pb is None:
+                    return None
+                neg = {"True": "False", "False": "True"}.get(cc, "¬ %s" % atom(cc))
+                for pre, ps in ((cc, pa), (neg, pb)):
+                    for pc, r in ps:
+                        if pre == "False" or pc == "False":
+                            continue
+                        paths.append((pc if pre == "True" else pre if pc == "True" else "(%s ∧ %s)" % (pre, pc), r))
+            elif k == "DeclStmt":
+                return None
+            else:
+                try:
+                    if not self.effect_free([s], st):
+                        return None
+                except Unsupported:
+                    return None
+        return paths
+
+    def effect_free(self, stmts, st):
+        mark = len(self.log)
+        snap = self.snapshot()
+        try:
+            self.block(stmts, st.fork(), lambda s2: [])
+            ws = self.written_in(mark)
+        finally:
+            self.restore(snap)
+            del self.log[mark:]
+        return not ws
+
+    def switch_to_ifs(self, s, st):
+        """`switch (e) { case A: case B: …; break; … default: … }` as a chain of synthetic if statements.
+        Every group must end in `break` or `return` (no fall-through between non-empty groups)."""
+        parts = inner(s)
+        if len(parts) != 2 or parts[1].get("kind") != "CompoundStmt":
+            raise Unsupported("switch statement shape")
+        self.st = st
+        sw = self.val(parts[0])
+        pre = []
+        if sw.const is None and not re.fullmatch(r"[A-Za-z0-9_']+", sw.nat if sw.nat is not None else sw.text):
+            self.ntmp += 1
+            nm = "sw_%d" % self.ntmp
+            pre = ["let %s : %s := %s" % (nm, sw.ty.lean(), sw.text)]
+            sw = V(nm, sw.ty, None, None)
+        groups, cur = [], None          # [(labels, stmts)]
+        def open_label(node):
+            labels = []
+            while node.get("kind") in ("CaseStmt", "DefaultStmt"):
+                sub = inner(node)
+                if node["kind"] == "CaseStmt":
+                    if len(sub) != 2:
+                        raise Unsupported("case range")
+                    v = convert(self.val(sub[0]), sw.ty)
+                    labels.append(v)
+                    node = sub[1]
+                else:
+                    labels.append(None)
+                    node = sub[0]
+            return labels, node
+        for node in inner(parts[1]):
+            if node.get("kind") in ("CaseStmt", "DefaultStmt"):
+                labels, first = open_label(node)
+                if cur is not None and cur[1] and cur[1][-1].get("kind") not in ("BreakStmt", "ReturnStmt"):
+                    raise Unsupported("switch case falls through")
+                if cur is not None and not cur[1]:
+                    cur[0].extend(labels)
+                else:
+                    cur = (labels, [])
+                    groups.append(cur)
+                cur[1].append(first)
+            else:
+                if cur is None:
+                    raise Unsupported("statement before the first case")
+                cur[1].append(node)
+        default, chain = None, []
+        for gi, (labels, body) in enumerate(groups):
+            if body and body[-1].get("kind") == "BreakStmt":
+                body = body[:-1]
+            elif not (body and body[-1].get("kind") == "ReturnStmt") and gi != len(groups) - 1:
+                raise Unsupported("switch case falls through")
+            if any(x.get("kind") == "BreakStmt" for b in body for x in walk(b) if x.get("kind") not in ("SwitchStmt",)):
+                raise Unsupported("break inside a switch case body")
+            if None in labels:
+                default = body
+                labels = [l for l in labels if l is not None]
+                if not labels:
+                    continue
+            conds = []
+            for l in labels:
+                a = sw.nat if (sw.ty.kind == "s" and sw.nat is not None and l.nat is not None) else sw.text
+                b = l.nat if (sw.ty.kind == "s" and sw.nat is not None and l.nat is not None) else l.text
+                if sw.const is not None and l.const is not None:
+                    conds.append("True" if sw.const == l.const else "False")
+                else:
+                    conds.append("%s = %s" % (atom(a), atom(b)))
+            conds = [c for c in conds if c != "False"]
+            if not conds:
+                continue
+            text = "True" if "True" in conds else (conds[0] if len(conds) == 1 else "(" + " ∨ ".join(conds) + ")")
+            chain.append((text, body))
+        node = {"kind": "CompoundStmt", "inner": default} if default is not None else None
+        for text, body in reversed(chain):
+            n2 = {"kind": "IfStmt", "inner": [{"kind": "SynthCond", "text": text}, {"kind": "CompoundStmt", "inner": body}] + ([node] if node is not None else [])}
+            node = n2
+        return pre, node
 
     def written_in(self, mark):
         """(lean name, CT) written since log position `mark` and declared before it, in order of first write"""
@@ -1064,9 +1276,10 @@ class FnTranslator:
                 out.append((nm, ct))
         return out
 
-    def if_join(self, cc, th, el, st):
+    def if_join(self, cc, th, el, st, mark0=None):
         # dry run to learn which outer variables the branches assign
         mark = len(self.log)
+        st_before = set(st) | set(self.always)
         snap = self.snapshot()
         sa, sb = st.fork(), st.fork()
         self.block(th, sa, lambda s2: [])
@@ -1100,6 +1313,33 @@ class FnTranslator:
             st.add(nm)
             st.consts.pop(nm, None)
         tys = " × ".join(ct.lean() for _, ct in ws)
+        if self.spec.get("outline_ifs") and mark0 is not None:
+            # the joined `if` becomes an auxiliary definition over the outer names it reads (keeps the main definition small)
+            declared = {x[1] for x in self.log[mark0:] if x[0] == "d"}
+            reads, seen, written = [], set(), set()
+            for kind, nm, ct in self.log[mark0:-len(ws)]:
+                if kind == "w":
+                    written.add(nm)
+                elif kind == "r" and nm not in declared and nm not in seen and nm not in written:
+                    seen.add(nm)
+                    reads.append((nm, ct))
+            for nm, ct in ws:
+                if nm in st_before and nm not in seen:
+                    seen.add(nm)
+                    reads.append((nm, ct))
+            self.ntmp += 1
+            aux = "%s_if%d" % (self.lean_name, self.ntmp)
+            params = " ".join("(%s : %s)" % (nm, ct.lean()) for nm, ct in reads)
+            self.aux.append("/-- an `if` statement of `%s` assigning %s -/\ndef %s %s : %s :=\n  if %s then\n%s\n  else\n%s"
+                            % (self.cname, ", ".join(names), aux, params, tys, cc, "\n".join("    " + x for x in a), "\n".join("    " + x for x in b)))
+            call = aux + "".join(" " + nm for nm, _ in reads)
+            if len(ws) == 1:
+                return ["let %s : %s := %s" % (names[0], tys, call)]
+            r = "r_%d" % self.ntmp
+            out = ["let %s : %s := %s" % (r, tys, call)]
+            for j, (nm, ct) in enumerate(ws):
+                out.append("let %s : %s := %s" % (nm, ct.lean(), self.proj(r, j, len(ws))))
+            return out
         if len(ws) == 1:
             return ["let %s : %s :=" % (names[0], tys), "  if %s then" % cc] + ["    " + x for x in a] + ["  else"] + ["    " + x for x in b]
         self.ntmp += 1
@@ -1270,19 +1510,75 @@ class FnTranslator:
             n = strip_casts(inner(n)[0])
         return ".".join(reversed(parts))
 
+    def target_path(self, n):
+        """textual path of an assignment target: member path, or `[index]` for an array cell"""
+        n = strip_casts(n)
+        if n.get("kind") == "MemberExpr":
+            return self.member_path(n)
+        if n.get("kind") == "ArraySubscriptExpr":
+            sym = self.symbolic_index(inner(n)[1])
+            i = strip_casts(inner(n)[1])
+            return "[%s]" % (sym if sym is not None else i.get("value", "?"))
+        if n.get("kind") == "DeclRefExpr":
+            return n["referencedDecl"].get("name", "")
+        return ""
+
+    def stmt_matches(self, s, a):
+        k = s.get("kind")
+        if "decl" in a:
+            return k == "DeclStmt" and any(d.get("kind") == "VarDecl" and d.get("name") == a["decl"] for d in inner(s))
+        if "assign" in a:
+            if (k == "BinaryOperator" and s.get("opcode") == "=") or k == "CompoundAssignOperator" \
+                    or (k == "UnaryOperator" and s.get("opcode") in ("++", "--")):
+                return self.target_path(inner(s)[0]).endswith(a["assign"])
+            return False
+        if "if_reads" in a:
+            return k == "IfStmt" and any(x.get("kind") == "MemberExpr" and self.member_path(x).endswith(a["if_reads"]) for x in walk(inner(s)[0]))
+        raise Unsupported("fragment anchor %r" % (a,))
+
     def find_fragment(self, body, frag):
+        if "call_arg" in frag:
+            fname, argi = frag["call_arg"]
+            n = frag.get("nth", 0)
+            for c in walk(body):
+                if c.get("kind") == "CallExpr":
+                    callee = strip_casts(inner(c)[0])
+                    if callee.get("kind") == "DeclRefExpr" and (callee["referencedDecl"].get("name") == fname or fname == "*") \
+                            and len(inner(c)) > 1 + argi \
+                            and ("reads" not in frag or any(x.get("kind") == "MemberExpr" and self.member_path(x).endswith(frag["reads"])
+                                                            for x in walk(inner(c)[1 + argi]))):
+                        if n == 0:
+                            return [{"kind": "ReturnStmt", "inner": [inner(c)[1 + argi]]}]
+                        n -= 1
+            raise Unsupported("fragment: no call to `%s`" % fname)
+        first = frag.get("first") or {"decl": frag["first_decl"]}
+        last = frag.get("last") or {"assign": frag["last_assign"]}
+        n = first.get("nth", 0)
         for c in walk(body):
             if c.get("kind") != "CompoundStmt":
                 continue
             ss = inner(c)
             for i, s in enumerate(ss):
-                if s.get("kind") == "DeclStmt" and any(d.get("kind") == "VarDecl" and d.get("name") == frag["first_decl"] for d in inner(s)):
+                if self.stmt_matches(s, first):
+                    if n > 0:
+                        n -= 1
+                        continue
                     for j in range(i, len(ss)):
-                        t = ss[j]
-                        if t.get("kind") == "BinaryOperator" and t.get("opcode") == "=" and self.member_path(inner(t)[0]).endswith(frag["last_assign"]):
+                        if self.stmt_matches(ss[j], last):
                             return ss[i:j + 1]
-                    raise Unsupported("fragment: no assignment to `%s` after the declaration of `%s`" % (frag["last_assign"], frag["first_decl"]))
-        raise Unsupported("fragment: no declaration of `%s`" % frag["first_decl"])
+                    raise Unsupported("fragment: no statement matching %r after %r" % (last, first))
+        raise Unsupported("fragment: no statement matching %r" % (first,))
+
+    def frag_results(self, st):
+        """values of the fragment's named result locals (0 where not yet defined on this path)"""
+        out = []
+        for nm in (self.spec.get("fragment") or {}).get("results", ()):
+            info = [v for v in self.vars.values() if v.get("kind") == "int" and v.get("cname") == nm]
+            if info and info[0]["lean"] in st:
+                out.append((info[0]["lean"], info[0]["ct"]))
+            else:
+                out.append(("0", info[0]["ct"] if info else CT("u", 64)))
+        return out
 
     def translate(self):
         fn = self.fn
@@ -1324,9 +1620,12 @@ class FnTranslator:
             self.seed = seed          # output fields found in the previous round: (base key, path) -> CT
             self.st = st
 
+            self.frag_plain = bool(frag and "call_arg" in frag)
+
             def end(st2):
                 if frag:
-                    return ["(" + ", ".join(["0"] + self.out_values(st2)) + ")"] if self.out_keys else ["0"]
+                    vals = ["0"] + self.out_values(st2) + [x[0] for x in self.frag_results(st2)]
+                    return ["(" + ", ".join(vals) + ")"] if len(vals) > 1 else ["0"]
                 if self.k.ret is not None:
                     raise Unsupported("control reaches the end of a non-void function")
                 vals = self.out_values(st2)
@@ -1363,8 +1662,16 @@ class FnTranslator:
             k.outputs.append((b.lean(path), b.writes[path], key, path))
         k.fresh = {key: b for key, b in self.bases.items() if str(key).startswith("fresh:")}
         if frag:
-            self.spec = dict(self.spec)
-            doc_frag = " — FRAGMENT from the declaration of `%s` to the assignment of `%s`; first component: 0 = fell through, r + 1 = `return r`" % (frag["first_decl"], frag["last_assign"])
+            for nm in frag.get("results", ()):
+                info = [v for v in self.vars.values() if v.get("kind") == "int" and v.get("cname") == nm]
+                if not info:
+                    raise Unsupported("fragment result `%s` is not a local of the fragment" % nm)
+                k.outputs.append((info[0]["lean"], info[0]["ct"], "local", nm))
+            if "call_arg" in frag:
+                doc_frag = " — FRAGMENT: argument %d of call %d to `%s`" % (frag["call_arg"][1], frag.get("nth", 0), frag["call_arg"][0])
+            else:
+                doc_frag = " — FRAGMENT from %r to %r; first component: 0 = fell through, r + 1 = `return r`" % (
+                    frag.get("first") or {"decl": frag["first_decl"]}, frag.get("last") or {"assign": frag["last_assign"]})
         sig = " ".join("(%s : %s)" % (p.lean, p.ct.lean()) for p in k.params)
         doc = "`%s` (%s)%s" % (self.cname, self.spec.get("src", "?"), doc_frag if frag else "")
         for b in self.bases.values():
@@ -1488,6 +1795,9 @@ def probe_kernel_c(k, spec, pts, tag):
         else:
             j = [lean_index[id(p)] for p in k.params if p.origin == ("arg", i)][0]
             args.append("(%s)A[gi][%d]" % (strip_quals(ts), j))
+    for p in k.params:
+        if p.origin[0] == "field" and p.origin[1] == "glob":
+            out.append("    %s = A[gi][%d];" % (p.origin[2], lean_index[id(p)]))
     call = "%s(%s)" % (k.cname, ", ".join(args))
     fmt, vals = [], []
     if k.ret is not None:
@@ -1499,6 +1809,8 @@ def probe_kernel_c(k, spec, pts, tag):
     for nm, ct, key, path in k.outputs:
         if isinstance(key, int):
             e = path_c("obj_%d" % key, path)
+        elif key == "glob":
+            e = path
         else:
             fe = spec.get("fresh_expr", {}).get(key.split(":", 1)[1])
             if fe is None:
